@@ -1,0 +1,15 @@
+//go:build verif
+
+package scanner
+
+import (
+	"reflect"
+
+	"github.com/jsightapi/jsight-api-core/verifhook"
+)
+
+func verifStep(s *Scanner, c byte) {
+	if verifhook.ScanStepEnabled() {
+		verifhook.ScanStep(reflect.ValueOf(s.step).Pointer(), c, int(s.curIndex), s.file.Name())
+	}
+}
